@@ -99,6 +99,43 @@ Theorem record_and_scale_code_as_modelled :
 Proof. exact source_tie_record_and_scales. Qed.
 Print Assumptions record_and_scale_code_as_modelled.
 
+(* ---- round 2: which variable carries a dimension's strings; reading into a larger array ------------------ *)
+(** SDgetdimstrs: the variable whose strings are returned is named exactly like the dimension (never one whose name
+    merely starts with the dimension's name), is one-dimensional and not an SDS; and it is found whenever it exists *)
+Theorem dimension_strings_come_from_the_dimensions_own_variable :
+  (forall dim var, name_match dim var = true <-> dim = var) /\
+  (forall dim vars v, find_coordvar dim vars = Some v -> cv_name v = dim /\ cv_rank v = 1 /\ cv_is_sds v = false) /\
+  (forall dim vars v, In v vars -> cv_name v = dim -> cv_rank v = 1 -> cv_is_sds v = false ->
+                      find_coordvar dim vars <> None).
+Proof. exact (conj name_match_iff (conj find_coordvar_exact find_coordvar_total)). Qed.
+Print Assumptions dimension_strings_come_from_the_dimensions_own_variable.
+
+(** DFSDIgetslice (DFSDgetdata / DFSDgetslice / DFSDreadslab): a dimension is merged into its neighbour only if it is
+    whole in the file and in the caller's array, i.e. its rows are contiguous in both; whole dimensions are merged.
+    PARTIAL with respect to the placement of the values: the induction over the row loop (offsets in file and array
+    after merging = row-major offsets before) is not proved; it rests on the padded-array correspondence runs. *)
+Theorem getslice_collapse_sound_partial :
+  (forall a w s f, collapse_break (a, w, s, f) = false -> w <= a -> 0 <= s -> s + w <= f -> a = w /\ s = 0 /\ w = f) /\
+  (forall a : Z, collapse_break (a, a, 0, a) = false).
+Proof. exact (conj collapse_only_whole_dimensions collapse_merges_whole_dimensions). Qed.
+Print Assumptions getslice_collapse_sound_partial.
+
+Theorem round2_code_as_modelled :
+  SDgetdimstrs_namematch = "namelen == (*dp)->name->len && strncmp(name, (*dp)->name->values, strlen(name)) == 0"%string /\
+  getslice_collapse_step = "wstart[i - 1] *= fdims[i]; wdims[i - 1] *= wdims[i]; adims[i - 1] *= adims[i]; fdims[i - 1] *= fdims[i]; rank--;"%string /\
+  getslice_fast_readsize = "readsize = wdims[0] * fileNTsize;"%string.
+Proof. exact source_tie_round2. Qed.
+Print Assumptions round2_code_as_modelled.
+
+Example ex_round2 :
+  let lat := mkCv [108; 97; 116] 1 false ([1], [2], [3]) in
+  let lat_bnds := mkCv [108; 97; 116; 95; 98] 1 false ([4], [5], [6]) in
+  sd_getdimstrs [108; 97; 116] [lat; lat_bnds] = ([1], [2], [3]) /\
+  name_match [108; 97; 116] [108; 97; 116; 95; 98] = false /\
+  collapse 4 [(6, 4, 0, 4); (3, 3, 0, 3)] = [(6, 4, 0, 4); (3, 3, 0, 3)] /\
+  collapse 4 [(4, 4, 0, 4); (5, 3, 0, 3)] = [(20, 12, 0, 12)].
+Proof. vm_compute. repeat split; reflexivity. Qed.
+
 (* ---- raster-image groups ---------------------------------------------------------------------------- *)
 Theorem dfr8_group_read_by_dfr8_and_df24 : forall m st', ri_ok m -> ri_ncomp m = 1 ->
   dfr8_view (dfr8_put m ++ st') (dfr8_members m) = Some (rview_of m (ri_il m)) /\
